@@ -181,7 +181,7 @@ def emit_logics(chk, g, facts, rules, pid='C03'):
                         'Proof. constructor; vm_compute; reflexivity. Qed.\n'
                         f'Definition C03_term_{i} := C03.C03_terminates PL_{i} WS_{i} {mmax} term_{i}.\n')
             chk.obligation(f'{n}:term_ok', True)
-        for br in bad:
+        for br in (bad if pid == 'C03' else []):
             # a rule whose exactness obligation is refuted is outside the decision theorem: report it
             # (with a concrete wrongly decided argument when the search finds one)
             kn = chk.known.get((chk.pid, f'decide:{n}:{br}'))
